@@ -1,7 +1,7 @@
 """C02 — Parsing terminates without panic or abort on every input."""
 from lib import pcache
 from lib import flow as FL
-from lib.facts import callee, op_place
+from lib.facts import op_local, callee, op_place
 from rules import parser_model as PM
 
 META = {
@@ -32,14 +32,18 @@ ROOT = "syntax::parser::parse_module"
 
 
 def fuel_constants(F):
-    """(value in parse_module's Cell::new, value in bump's fuel.set)"""
+    """(value of the Cell that becomes Parser.fuel in parse_module, value in bump's fuel.set)"""
     pm = F.fn(ROOT)
+    d = FL.Defs(pm)
     init = None
-    for b, t in pm.calls():
-        if (callee(t) or "").endswith("Cell::<T>::new"):
-            k = t["args"][0].get("k")
-            if k and "bits" in k and k["ty"] == "u32":
-                init = int(k["bits"])
+    for b, i, s_ in pm.stmts():
+        rv = s_.get("rv") or {}
+        if rv.get("k") == "agg" and (rv.get("adt") or "") == PM.PA and "fuel" in (rv.get("fields") or []):
+            o = d.origin_op(rv["ops"][rv["fields"].index("fuel")])
+            if o.get("k") == "call" and (callee(o["t"]) or "").endswith("Cell::<T>::new"):
+                k = o["t"]["args"][0].get("k")
+                if k and "bits" in k:
+                    init = int(k["bits"])
     bump = F.fn(PM.P + "bump")
     refill = None
     for b, t in bump.calls():
@@ -48,6 +52,174 @@ def fuel_constants(F):
             if k and "bits" in k:
                 refill = int(k["bits"])
     return init, refill
+
+
+def nesting_guard(F):
+    """The Parser method that bounds the nesting, found by what it does: it reads a counter field of the parser (Cell::get),
+    compares it with a constant N, and only on the side where the counter is below N stores counter + 1. Returns
+    {method, field, limit, token (the type handed out), releases (the Drop impl stores counter - 1)} or None."""
+    from lib import effects as EF
+    for p_, f in sorted(F.fns.items()):
+        if not p_.startswith(PM.P) or not f.blocks or "{closure" in p_:
+            continue
+        d = FL.Defs(f)
+        gets = [(b, t) for b, t in f.calls() if (callee(t) or "").endswith("Cell::<T>::get")]
+        sets = [(b, t) for b, t in f.calls() if (callee(t) or "").endswith("Cell::<T>::set")]
+        if not gets or not sets:
+            continue
+        fields = {e["field"] for e in EF.field_effects(f, PM.PA) if (e.get("callee") or "").endswith(("Cell::<T>::get", "Cell::<T>::set", "Deref>::deref", "Deref::deref"))}
+        fields -= {"fuel"}
+        if len(fields) != 1:
+            continue
+        limit, cmp_bb, deep_edge = None, None, None
+        for b, i, s_ in f.stmts():
+            rv = s_.get("rv") or {}
+            if rv.get("k") == "bin" and rv["op"] in ("Ge", "Gt", "Lt", "Le"):
+                ka, kb = rv["a"].get("k") if isinstance(rv["a"], dict) else None, rv["b"].get("k") if isinstance(rv["b"], dict) else None
+                const = kb if isinstance(kb, dict) and "bits" in kb else (ka if isinstance(ka, dict) and "bits" in ka else None)
+                other = rv["a"] if const is kb else rv["b"]
+                oo = d.origin_op(other) if isinstance(other, dict) and "k" not in other else {}
+                if const is not None and oo.get("k") == "call" and (callee(oo["t"]) or "").endswith("Cell::<T>::get"):
+                    t = f.term(b)
+                    if t["k"] == "switch" and op_local(t["op"]) == s_["place"]["l"]:
+                        n = int(const["bits"])
+                        counter_left = const is kb
+                        # the edge on which `counter >= N` (or `counter > N - 1`) holds
+                        true_t, false_t = t["otherwise"], [x for v, x in t["targets"] if int(v) == 0][0]
+                        op = rv["op"] if counter_left else {"Ge": "Le", "Gt": "Lt", "Le": "Ge", "Lt": "Gt"}[rv["op"]]
+                        if op in ("Ge", "Gt"):
+                            deep, ok_edge = true_t, false_t
+                            limit = n if op == "Ge" else n + 1
+                        else:
+                            deep, ok_edge = false_t, true_t
+                            limit = n if op == "Lt" else n + 1
+                        cmp_bb, deep_edge = b, (deep, ok_edge)
+        if limit is None:
+            continue
+        deep, ok_edge = deep_edge
+        # the increment is reachable from the ok edge only
+        inc = [b for b, t in sets]
+        inc_on_deep = any(f.can_reach(deep, [b]) for b in inc) if deep != ok_edge else True
+        inc_on_ok = any(f.can_reach(ok_edge, [b]) or b == ok_edge for b in inc)
+        out_ty = f.d.get("output") or ""
+        token = None
+        for adt in F.adts if hasattr(F, "adts") else []:
+            pass
+        import re as _re
+        m = _re.search(r"Option<([\w:]+)>", out_ty)
+        token = m.group(1) if m else None
+        releases = False
+        if token:
+            dp = "<%s as core::ops::drop::Drop>::drop" % token
+            g = F.fns.get(dp)
+            if g is not None and g.blocks:
+                dg = FL.Defs(g)
+                for b, t in g.calls():
+                    if (callee(t) or "").endswith("Cell::<T>::set"):
+                        o = dg.origin_op(t["args"][1])
+                        base = o
+                        while base.get("k") == "field":
+                            base = base["base"]
+                        if base.get("k") == "rv" and base["rv"].get("k") == "bin" and base["rv"]["op"] in ("Sub", "SubWithOverflow"):
+                            releases = True
+        return {"method": p_, "field": sorted(fields)[0], "limit": limit, "token": token, "releases": releases,
+                "increment_only_below_limit": inc_on_ok and not inc_on_deep, "line": f.line}
+    return None
+
+
+def guarded_functions(F, guard, members):
+    """functions of a recursive cycle whose calls into the cycle all sit behind the accepting answer of the nesting guard, and
+    that keep the token alive until they return (it is a local that is only dropped)"""
+    out = {}
+    for p_ in members:
+        f = F.fn(p_)
+        d = FL.Defs(f)
+        gc = [(b, t) for b, t in f.calls() if (callee(t) or "") == guard["method"]]
+        if len(gc) != 1:
+            continue
+        gb, gt = gc[0]
+        rec = [(b, t) for b, t in f.calls() if (callee(t) or "") in members]
+        ok = True
+        for b, t in rec:
+            gs = FL.gates(F, f, [b], d)
+            if not any((g.get("callee") or "") == guard["method"] and g.get("allowed") == ["Some"] for g in gs):
+                ok = False
+        # the token: the payload of the Some answer; never an argument of a call (forget, a move into a callee)
+        tok_locals = {s_["place"]["l"] for b, i, s_ in f.stmts() if s_["k"] == "assign" and not s_["place"]["p"] and
+                      guard["token"] and (f.local_ty(s_["place"]["l"]) or "") == guard["token"]}
+        moved = [FL.short(callee(t) or callee_def(t) or "") for b, t in f.calls() for a in t["args"] if op_local(a) in tok_locals]
+        out[p_] = ok and not moved and bool(tok_locals)
+    return out
+
+
+def nesting_status(F, R):
+    """everything P5 needs: the guard, per recursive cycle whether it is cut and how heavy one level is, the wrap sites, the bound"""
+    import functools
+    sccs = R["recursive_sccs"]
+    guard = nesting_guard(F)
+    init, refill = fuel_constants(F)
+    tails_all = {f: v["la"] for f, v in R["tails"].items()}
+    cycles, cut_all, W_max = [], bool(guard), 0
+    for scc in sccs:
+        members = set(scc)
+        g = guarded_functions(F, guard, members) if guard else {}
+        guarded = {f for f, ok in g.items() if ok}
+        edges = {f: sorted({callee(t) for b, t in F.fn(f).calls() if (callee(t) or "") in members}) for f in members}
+
+        @functools.lru_cache(maxsize=None)
+        def heaviest(f, seen=()):
+            if f in seen:
+                return None               # a cycle that avoids every guarded function
+            w = tails_all.get(f, 0)
+            best = 0
+            for c in edges[f]:
+                if c in guarded:
+                    continue
+                r = heaviest(c, seen + (f,))
+                if r is None:
+                    return None
+                best = max(best, r)
+            return w + best
+        ws = [heaviest(f) for f in sorted(members)]
+        cut = bool(guarded) and all(w is not None for w in ws)
+        hv = max([heaviest(f) for f in sorted(guarded)], default=None) if cut else None
+        cycles.append({"key": scc[0].rsplit("::", 1)[-1], "name": "/".join(x.rsplit("::", 1)[-1] for x in scc[:4]) + ("…" if len(scc) > 4 else ""),
+                       "guarded": sorted(x.rsplit("::", 1)[-1] for x in guarded), "cut": cut, "heaviest": hv})
+        cut_all = cut_all and cut
+        if cut:
+            W_max = max(W_max, hv)
+    rec = {f for s_ in sccs for f in s_}
+    once = sum(v for f, v in tails_all.items() if f not in rec)
+    bound = (guard["limit"] * W_max + once + R["la_abs"]) if guard and cut_all else None
+    # wraps: start_node_before inside a loop must sit behind the budget test
+    budget = None
+    if guard:
+        for p_, f in sorted(F.fns.items()):
+            if p_.startswith(PM.P) and f.blocks and p_ != guard["method"] and (f.d.get("output") == "bool"):
+                d = FL.Defs(f)
+                if any((callee(t) or "").endswith("Cell::<T>::get") for b, t in f.calls()) and \
+                        any((s_.get("rv") or {}).get("k") == "bin" and s_["rv"]["op"] in ("Ge", "Gt", "Lt", "Le") and
+                            any(isinstance(o.get("k"), dict) and str(o["k"].get("bits")) == str(guard["limit"]) for o in (s_["rv"]["a"], s_["rv"]["b"]) if isinstance(o, dict))
+                            for b, i, s_ in f.stmts()):
+                    budget = p_
+    wraps = []
+    for p_ in R["functions"]:
+        f = F.fn(p_)
+        d = None
+        loops = [f.natural_loop(tl, hd) for tl, hd in f.back_edges()]
+        k = 0
+        for b, t in f.calls():
+            if (callee(t) or "") == PM.P + "start_node_before":
+                if any(b in lp for lp in loops):
+                    d = d or FL.Defs(f)
+                    gs = FL.gates(F, f, [b], d)
+                    gated = bool(budget) and any((g.get("callee") or "") == budget and g.get("allowed") == [True] for g in gs)
+                    wraps.append({"fn": p_, "ordinal": k, "line": t["ln"], "gated": gated})
+                k += 1
+    fuel_ok = bound is not None and refill is not None and init is not None and bound < min(init, refill) and all(w["gated"] for w in wraps)
+    return {"guard": guard, "cycles": cycles, "wraps": wraps, "limit": (guard or {}).get("limit"), "heaviest_level": W_max, "non_recursive_tails": once,
+            "head": R["la_abs"], "bound": bound, "fuel": refill, "fuel_ok": fuel_ok,
+            "ok": bool(guard) and guard["increment_only_below_limit"] and guard["releases"] and cut_all and fuel_ok}
 
 
 def run(F, res, tier):
@@ -123,23 +295,28 @@ def run(F, res, tier):
            how="max look-aheads %d (at %s) vs fuel %s" % (R["la_abs"], (R["la_abs_at"] or {}).get("ctx"), refill))
 
     # ---- P5
-    sccs = R["recursive_sccs"]
-    guard = depth_guard(F)
-    res.ob("P5a", "recursive-scc-without-depth-bound",
-           "the recursive cycles of the grammar (%s) are cut by a nesting limit, so deeply nested input cannot "
-           "overflow the stack" % ["/".join(x.rsplit("::", 1)[-1] for x in s[:4]) + ("…" if len(s) > 4 else "") for s in sccs],
-           not sccs or guard, where="crates/syntax/src/parser.rs",
-           how="a depth guard exists" if guard else "ErrorKind::NestTooDeep is never produced and no function on a "
-           "cycle tests a depth counter: recursion depth = nesting depth of the input")
-    rec = {f for s in sccs for f in s}
-    tails = {f: v for f, v in R["tails"].items() if f in rec and v["la"] > 0}
-    res.ob("P5b", "lookahead-on-return-path-unbounded",
-           "look-aheads performed while returning through nested frames cannot exhaust the fuel",
-           not tails or guard, where="crates/syntax/src/parser.rs",
-           how="bounded" if (not tails or guard) else
-           "each level of nesting adds look-aheads after its last consumption (%s) and nesting is unbounded, so "
-           "fuel (%s) runs out at a nesting depth of a few hundred" % (
-               {f.rsplit("::", 1)[-1]: v["la"] for f, v in sorted(tails.items())}, refill))
+    NS = nesting_status(F, R)
+    guard = NS["guard"]
+    res.ob("P5a", "nesting-guard", "a Parser method bounds the nesting: it compares a counter with a constant and counts up only below it; what it "
+           "hands out counts down again when dropped", bool(guard) and guard["increment_only_below_limit"] and guard["releases"],
+           where="crates/syntax/src/parser.rs:%s" % (guard or {}).get("line", ""), how=str({k: v for k, v in (guard or {}).items() if k != "line"}) if guard else
+           "no method of Parser compares a counter with a constant: recursion depth = nesting depth of the input")
+    for c in NS["cycles"]:
+        res.ob("P5a", "cycle-cut/%s" % c["key"], "every cycle among %s passes a function that asks the nesting guard before it descends "
+               "(and keeps the level until it returns)" % c["name"], c["cut"], where="crates/syntax/src/parser.rs",
+               how="guarded: %s; heaviest return path between two guarded activations: %s look-aheads" % (c["guarded"], c["heaviest"]) if c["guarded"] else
+               "no function of the cycle asks the guard: recursion depth = nesting depth of the input")
+    for w in NS["wraps"]:
+        res.ob("P5a", "wrap-budget/%s/%d" % (w["fn"].rsplit("::", 1)[-1], w["ordinal"]), "an operand is wrapped into a new node inside a loop only while the "
+               "nesting budget allows it (the tree, and with it every later recursive walk, stays shallow however long a chain of operators is)",
+               w["gated"], where="crates/syntax/src/parser.rs:%s" % w["line"], how="gated by the budget test: %s" % w["gated"])
+    res.analysed["nesting"] = {k: NS[k] for k in ("limit", "heaviest_level", "non_recursive_tails", "head", "bound", "fuel")}
+    res.ob("P5b", "lookahead-on-return-path-bounded",
+           "look-aheads performed while returning through nested frames cannot exhaust the fuel: fuel > limit x (heaviest return path of one level) "
+           "+ the look-aheads of every non-recursive function once + the largest head", NS["fuel_ok"], where="crates/syntax/src/parser.rs",
+           how="%s x %s + %s + %s = %s vs fuel %s" % (NS["limit"], NS["heaviest_level"], NS["non_recursive_tails"], NS["head"], NS["bound"], NS["fuel"])
+           if NS["bound"] is not None else "nesting is unbounded: each level adds look-aheads after its last consumption, fuel (%s) runs out at a depth "
+           "of a few hundred" % NS["fuel"])
 
     p6_inventory(F, res, R)
     # ---- P7
